@@ -11,7 +11,9 @@ LEVEL = ("Static analysis of linfa-nn (and of the `within`/`nearest` routines of
          "comparison, min/max, sum or conversion - tags come from the Distance trait's own methods and flow through locals, "
          "heaps, struct fields and calls; (sib) the three index kinds perform the same build checks (leaf size, dimension) and "
          "reject queries of the wrong dimension; (edge) the relation that admits a point at distance exactly `range` is the "
-         "same in all three kinds. Necessary conditions of 'pruning bounds use the right metric conversion', 'malformed "
+         "same in all three kinds; (degree) a homogeneity-degree analysis of the four provided metrics: `distance` has degree 1 in "
+         "the coordinate differences on every branch, and rdistance / rdist_to_dist / dist_to_rdist agree on one reduced degree. "
+         "Necessary conditions of 'pruning bounds use the right metric conversion', 'malformed "
          "builds/queries are errors' and 'the kinds agree on points exactly on the radius'. Geometric sufficiency of the "
          "pruning bounds and k-NN tie handling are not decided.")
 ASSUME = ["rustc resolution/typeck; HIR faithfully dumped", "Distance::{distance, rdistance, dist_to_rdist, rdist_to_dist} are implemented consistently by each metric",
